@@ -165,22 +165,22 @@ Fixpoint dec_cells (ns len : nat) (bs : list N) : option (list str) :=
   end.
 
 (* decoder/samples/values.rs read_values for Type=Character/String: the typed descriptor must be a
-   String; a missing type is .expect("unhandled type"), any other type reaches todo!() *)
+   String; a missing type or any other type is TypeMismatch *)
 Definition dec_fmt_cells (ns : nat) (bs : list N) : rres (list str) :=
   match read_type bs with
   | None => RErr
   | Some (code, len, r) =>
-    if code =? 0 then RPanic
+    if code =? 0 then RErr                            (* TypeMismatch *)
     else if (len =? 0) && negb (code =? 7) then RErr
     else if code =? 7 then
       match dec_cells ns (Z.to_nat len) r with Some xs => ROk xs | None => RErr end
-    else RPanic
+    else RErr                                         (* TypeMismatch *)
   end.
 
-(* read_char_values: s.chars().next().unwrap() -- the first character only; panics on an empty
-   cell *)
+(* read_char_values: s.chars().next() -- the first character only; an empty cell is
+   InvalidCharacter *)
 Definition first_char (s : str) : rres (option N) :=
-  match s with [] => RPanic | c :: _ => ROk (char_of_byte c) end.
+  match s with [] => RErr | c :: _ => ROk (char_of_byte c) end.
 
 Definition dec_fmt_chars (ns : nat) (bs : list N) : rres (list (option N)) :=
   rbind (dec_fmt_cells ns bs) (map_rres first_char).
